@@ -208,6 +208,36 @@ C05_TvdUnit(g, Mup, Mconv, tvd1, phi) ==
 VecZero(g, v) == \A c \in AllCells(g) : RIsZero(v[c])
 VecFinite(g, v) == \A c \in AllCells(g) : ~IsNaN(v[c])
 
+-----------------------------------------------------------------------------
+(* C11 - cell-to-face means.  F is a face field computed from the cell field phi. *)
+FaceLo(phi, id) == phi[LoCell(id[1], id[2])]
+FaceHi(phi, id) == phi[HiCell(id[1], id[2])]
+C11_Between(g, phi, F) ==
+  \A id \in FaceIds(g) :
+     /\ RLe(RMin(FaceLo(phi, id), FaceHi(phi, id)), F[id])
+     /\ RLe(F[id], RMax(FaceLo(phi, id), FaceHi(phi, id)))
+C11_Const(g, c, F) == \A id \in FaceIds(g) : F[id] = c
+C11_Ordering(g, H, G, A) == \A id \in FaceIds(g) : RLe(H[id], G[id]) /\ RLe(G[id], A[id])
+\* geometric mean through its defining relation  G^(w1+w2) = a^w1 * b^w2  (integer cell widths)
+C11_GeoRelation(g, phi, G) ==
+  \A id \in FaceIds(g) :
+     LET a == id[1]  f == id[2]
+         w1 == Size(g, a, f[a])  w2 == Size(g, a, f[a] + 1)
+     IN  /\ w1[2] = 1 /\ w2[2] = 1
+         /\ RPow(G[id], w1[1] + w2[1]) = RMul(RPow(FaceLo(phi, id), w1[1]), RPow(FaceHi(phi, id), w2[1]))
+\* linear field  alpha + sum_a beta_a * x_a  sampled at cell centres (ghost centres mirrored)
+CentreExt(g, a, i) == IF i = 0 THEN RSub(Face(g, a, 0), RMul(RHalf, Size(g, a, 0)))
+                      ELSE IF i = NCells(g, a) + 1
+                           THEN RAdd(Face(g, a, NCells(g, a)), RMul(RHalf, Size(g, a, i)))
+                           ELSE Centre(g, a, i)
+LinearField(g, alpha, beta) ==
+  [c \in AllCells(g) |-> RAdd(alpha, RSumSet(Axes(g), LAMBDA a : RMul(beta[a], CentreExt(g, a, c[a]))))]
+C11_LinearExact(g, alpha, beta, F) ==
+  \A id \in FaceIds(g) :
+     LET a == id[1]  f == id[2]
+         xf(b) == IF b = a THEN Face(g, a, f[a]) ELSE Centre(g, b, f[b])
+     IN  F[id] = RAdd(alpha, RSumSet(Axes(g), LAMBDA b : RMul(beta[b], xf(b))))
+
 \* the reference mesh record (what the documentation promises)
 RefMesh(g) ==
   [dims        |-> Dims(g),
